@@ -18,6 +18,7 @@
 #include <AIToolbox/Bandit/Policies/ESRLPolicy.hpp>
 #include <AIToolbox/Bandit/Policies/SuccessiveRejectsPolicy.hpp>
 #include <AIToolbox/Bandit/Policies/RandomPolicy.hpp>
+#include <AIToolbox/MDP/Policies/RandomPolicy.hpp>
 #undef private
 #undef protected
 
@@ -85,6 +86,42 @@ void c09_misc(const std::string & kind, vio::Cursor & c, vio::Out & o) {
             p.stepUpdateQ();
             dumpAll(o, p, A);
             o << p.getCurrentPhase() << p.getCurrentNk() << p.canRecommendAction(); o.list(p.availableActions_);
+        }
+    } else if (kind == "brnd") {
+        // round 6: Bandit::RandomPolicy against the model.  Output: bounds of the private
+        // uniform_int_distribution, then per sample: the draw a fresh distribution with the DOCUMENTED
+        // range [0, A-1] makes on a copy of the engine, table, queries, sampled action.
+        const size_t A = c.nextSize();
+        const size_t ns = c.nextSize();
+        Seeder::setRootSeed((unsigned) c.nextSize());
+        Bandit::RandomPolicy p(A);
+        o << p.getA() << (size_t) p.randomDistribution_.a() << (size_t) p.randomDistribution_.b();
+        for (size_t k = 0; k < ns; ++k) {
+            RandomEngine cpy = p.rand_;
+            std::uniform_int_distribution<size_t> d(0, A - 1);
+            o << d(cpy);
+            dumpAll(o, p, A);
+        }
+    } else if (kind == "mrnd") {
+        // round 6: MDP::RandomPolicy = MDP::BanditPolicyAdaptor<Bandit::RandomPolicy>
+        const size_t S = c.nextSize();
+        const size_t A = c.nextSize();
+        const size_t ns = c.nextSize();
+        Seeder::setRootSeed((unsigned) c.nextSize());
+        MDP::RandomPolicy p(S, A);
+        const auto & bp = p.getBanditPolicy();
+        o << p.getS() << p.getA() << (size_t) bp.randomDistribution_.a() << (size_t) bp.randomDistribution_.b();
+        const Matrix2D m = p.getPolicy();
+        o << (size_t) m.rows() << (size_t) m.cols();
+        for (long s = 0; s < (long) m.rows(); ++s)
+            for (long a = 0; a < (long) m.cols(); ++a) o << (double) m(s, a);
+        for (size_t s = 0; s < S; ++s)
+            for (size_t a = 0; a < A; ++a) o << p.getActionProbability(s, a);
+        for (size_t k = 0; k < ns; ++k) {
+            const size_t s = S ? (k * 7 + 3) % S : 0;
+            RandomEngine cpy = bp.rand_;
+            std::uniform_int_distribution<size_t> d(0, A - 1);
+            o << s << d(cpy) << p.sampleAction(s);
         }
     } else {                                            // rnd
         const size_t A = c.nextSize();
